@@ -311,6 +311,10 @@ func (resp *Resp) next() error {
 			var u url.URL
 			if req.DirectURL != nil {
 				u = *req.DirectURL
+				// a URL from the registry that points back at the registry stays on the transport configured for it
+				if u.Scheme == "http" && h.config.TLS != config.TLSDisabled && sameHost(u.Host, h.config.Hostname) {
+					u.Scheme = "https"
+				}
 			} else {
 				u = url.URL{
 					Host:   h.config.Hostname,
@@ -812,6 +816,10 @@ func (ch *clientHost) checkRedirect(repo string, orig func(req *http.Request, vi
 		if len(via) >= 10 {
 			return errors.New("stopped after 10 redirects")
 		}
+		// a redirect back to the registry stays on the transport configured for it
+		if req.URL.Scheme == "http" && ch.config.TLS != config.TLSDisabled && sameHost(req.URL.Host, ch.config.Hostname) {
+			req.URL.Scheme = "https"
+		}
 		// add auth headers if appropriate for the target host
 		hAuth := ch.getAuth(repo)
 		err := hAuth.UpdateRequest(req)
@@ -852,6 +860,11 @@ func (ch *clientHost) AuthCreds() func(h string) auth.Cred {
 		hCred := ch.config.GetCred()
 		return auth.Cred{User: hCred.User, Password: hCred.Password, Token: hCred.Token}
 	}
+}
+
+// sameHost compares two "host[:port]" values, the default https port may be omitted on either side.
+func sameHost(a, b string) bool {
+	return strings.TrimSuffix(a, ":443") == strings.TrimSuffix(b, ":443")
 }
 
 type wrapTransport struct {
